@@ -166,6 +166,38 @@ func (c *Ctx) index() {
 	c.ByPath = map[string]*packages.Package{}
 	packages.Visit(c.Pkgs, nil, func(p *packages.Package) { c.ByPath[p.PkgPath] = p })
 	c.all = ssautil.AllFunctions(c.Prog)
+	// AllFunctions misses methods of types that never become runtime types in the loaded program (e.g. unexported
+	// types only used through interfaces from packages that are not loaded): enumerate members explicitly.
+	var addFn func(fn *ssa.Function)
+	addFn = func(fn *ssa.Function) {
+		if fn == nil || c.all[fn] {
+			return
+		}
+		c.all[fn] = true
+		for _, a := range fn.AnonFuncs {
+			addFn(a)
+		}
+	}
+	for _, p := range c.Prog.AllPackages() {
+		for _, m := range p.Members {
+			switch x := m.(type) {
+			case *ssa.Function:
+				addFn(x)
+			case *ssa.Type:
+				for _, t := range []types.Type{x.Type(), types.NewPointer(x.Type())} {
+					ms := c.Prog.MethodSets.MethodSet(t)
+					for i := 0; i < ms.Len(); i++ {
+						addFn(c.Prog.MethodValue(ms.At(i)))
+					}
+				}
+			}
+		}
+	}
+	for fn := range c.all {
+		for _, a := range fn.AnonFuncs {
+			addFn(a)
+		}
+	}
 	c.funcs = map[string]*ssa.Function{}
 	for fn := range c.all {
 		c.funcs[fn.String()] = fn
